@@ -44,6 +44,10 @@ class Req:
         elif r > 0.88 and self.framing in ("cl", "chunked") and self.body and self.version == "1.1":
             # an h2c upgrade offer on a request with a body must be ignored (RFC 7540 3.2): plain HTTP/1.1 service
             self.headers += [(b"Connection", b"Upgrade, HTTP2-Settings"), (b"Upgrade", b"h2c"), (b"HTTP2-Settings", b"AAMAAABkAAQAAP__")]
+        if self.method.upper() != "GET" and self.version == "1.1" and rng.random() < 0.06 and not any(n.lower() in (b"connection", b"upgrade") for n, _ in self.headers):
+            # WebSocket upgrade headers on a method that is not GET: they mean nothing (RFC 6455 4.1), plain HTTP service
+            self.headers += [(b"Upgrade", b"websocket"), (b"Connection", b"Upgrade"), (b"Sec-WebSocket-Key", b"dGhlIHNhbXBsZSBub25jZQ=="),
+                             (b"Sec-WebSocket-Version", b"13")]
         if self.version == "1.0":
             self.close = True
 
